@@ -29,8 +29,11 @@ REGIONS = {}
 def mk_discrete_offline(rng):
     g = F.Gen(rng, VARS, F.ALL_DISCRETE_OFFLINE - {"fn"}, max_bound=rng.choice([2, 4, 6, 8]))
     k = rng.random()
-    if k < 0.4:
+    if k < 0.25:
         f = g.formula(rng.choice([1, 2, 3]))
+    elif k < 0.5:
+        # one variable read directly by several temporal operators (bounded ones with windows beyond a short trace)
+        f = F.shared_variable_formula(rng, g, VARS)
     elif k < 0.75:
         # operators applied directly to variables: the result lists of variable nodes are the caller's lists
         f = g.untyped(rng.choice([1, 1, 2, 3]))
@@ -39,7 +42,8 @@ def mk_discrete_offline(rng):
         f = ("b", rng.choice(["and", "or", "add", "lt"]), g.untyped(1), g.untyped(rng.choice([1, 2])))
     n = rng.randint(1, 6)
     vs = F.variables(f) or ["a"]
-    return {"kind": "offd", "f": f, "n": n, "data": F.gen_trace(rng, vs + (["zz"] if rng.random() < 0.2 else []), n), "vars": vs}
+    return {"kind": "offd", "f": f, "n": n, "data": F.gen_trace(rng, vs + (["zz"] if rng.random() < 0.2 else []), n), "vars": vs,
+            "units": rng.random() < 0.3}
 
 
 def mk_discrete_online(rng):
@@ -76,13 +80,18 @@ def mk_dense_offline(rng):
 
 def check_offline_discrete(ctx, c):
     text = "out = " + F.to_text(c["f"])
+    kw = {}
+    if c.get("units"):
+        # default unit ms, sampling period 1 s, bounds written in seconds: `normalize` is not 1
+        text = "out = " + F.to_text(c["f"], bound=lambda k: "%ds" % k)
+        kw = dict(unit="ms", sampling=(1, "s", 0.1))
     ds = {"time": list(range(c["n"]))}
     ds.update({v: list(c["data"][v]) for v in c["data"]})
     ds2 = {"time": list(range(c["n"]))}
     ds2.update({v: [x + 1.0 for x in c["data"][v]] for v in c["data"]})
 
     def go():
-        spec = impl.make_spec("offd", text, sorted(c["data"]))
+        spec = impl.make_spec("offd", text, sorted(c["data"]), **kw)
         spec.parse()
         before = copy.deepcopy(ds)
         r1 = spec.evaluate(ds)
@@ -93,7 +102,7 @@ def check_offline_discrete(ctx, c):
         r3 = spec.evaluate(ds)
         return mutated, before, r1c, r2, r3
     out = impl.guarded(go)
-    rep = {"kind": "offd", "spec": text, "formula": F.to_proto(c["f"]), "n": c["n"], "data": c["data"], "impl": out}
+    rep = {"kind": "offd", "units": bool(c.get("units")), "spec": text, "formula": F.to_proto(c["f"]), "n": c["n"], "data": c["data"], "impl": out}
     if out[0] != "ok":
         return Violation("discrete offline evaluate() raised %r: %s" % (out[1:], text), rep, stream="pure/offd")
     mutated, before, r1, r2, r3 = out[1]
@@ -369,7 +378,8 @@ def replay(ctx, obj):
         v = period_units_case(scratch, obj["op"], obj["k"], obj["c0"], obj["period_number"], [float(t) for t in obj["x"]], tuple(obj["order"]))
         return (v is None), (v.what if v else "the two objects do not influence each other")
     if obj["kind"] == "offd":
-        c = {"kind": "offd", "f": F.from_proto(obj["formula"]), "n": obj["n"], "data": {k: [float(x) for x in v] for k, v in obj["data"].items()}}
+        c = {"kind": "offd", "f": F.from_proto(obj["formula"]), "n": obj["n"], "data": {k: [float(x) for x in v] for k, v in obj["data"].items()},
+             "units": obj.get("units")}
         v = check_offline_discrete(scratch, c)
     elif obj["kind"] == "offc":
         v = check_offline_dense(scratch, {"f": F.from_proto(obj["formula"]), "sig": D.sig_of_rep(obj["signals"])})
